@@ -19,11 +19,15 @@ namespace vita
 ///
 /// Sets up a hold-out validator.
 ///
-/// \param[in] prob current problem
+/// \param[in] prob  current problem
+/// \param[in] eva_t evaluator working on the training set (if it caches
+///                  fitness values they're cleared when the set changes)
 ///
-holdout_validation::holdout_validation(src_problem &prob)
+holdout_validation::holdout_validation(src_problem &prob,
+                                       cached_evaluator *eva_t)
   : training_(prob.data(dataset_t::training)),
     validation_(prob.data(dataset_t::validation)),
+    eva_t_(eva_t),
     env_(prob.env)
 {
   // Here `env_.validation_percentage.has_value()` could be `false`. Validation
@@ -72,6 +76,11 @@ void holdout_validation::init(unsigned run)
   const auto from(std::next(training_.begin(), skip));
   std::copy(from, training_.end(), std::back_inserter(validation_));
   training_.erase(from, training_.end());
+
+  // Cached fitness values (e.g. reloaded from the serialization file before
+  // the first run) refer to the previous training set.
+  if (eva_t_)
+    eva_t_->clear();
 
   Ensures(!training_.empty());
   Ensures(training_.size() == skip);
